@@ -114,6 +114,9 @@ func sessionMain(s *simrt.Sim, info *harness.RunInfo) {
 	source := simrt.PickS(s, "cookie", "header", "query")
 	useSim := s.Chance(500)
 	idle := time.Duration(s.Range(3, 6)) * time.Second
+	if s.Chance(120) {
+		idle = 500 * time.Millisecond // below the one-second granularity of the storages: such a session may be gone at once, never live on
+	}
 	var abs time.Duration
 	if s.Chance(400) {
 		abs = idle + time.Duration(s.Range(3, 8))*time.Second
@@ -570,7 +573,9 @@ func sessionMain(s *simrt.Sim, info *harness.RunInfo) {
 					op.prog = append(op.prog, sessStep{kind: "save"}) // several operations inside one request
 				}
 			}
-			if op.route == "store" && s.Chance(250) {
+			if op.route == "store" && s.Chance(250) && idle >= time.Second {
+				// (with a sub-second idle timeout the first Get + Save of the request re-saves the session with a
+				// lifetime below the storages' granularity: whether the second Get still finds it is not asked)
 				op.twice = true
 			}
 			if (op.route == "mw" || op.route == "store") && s.Chance(80) {
